@@ -153,6 +153,150 @@ def midPoints (N : Nat) (pieces : List Bytes) (upto : Nat) (failAt : Option Nat)
   let l := go pieces [] 0 0 0 upto []
   if l.isEmpty then "-" else ",".intercalate l
 
+
+/-! ### the complete model (`writeFileFull` / `fileRunFull`): real path names, the loop of CreateTemp, a failing unlink -/
+
+def dstS : Str := "/d/dst".toList
+def dstQ : Path := codeStr dstS
+def tmpdirS : Str := "/tmp".toList
+
+structure FaultSpec where
+  fault : Fault := .none
+  e : String := ""
+  ofaults : Nat → Option OpenFault := fun _ => none
+
+/-- the faults of `parseFault?` plus `exist:<k>` (the first k `openat`s of CreateTemp fail with EEXIST) and `open:<ERR>`
+    (the first one fails with another error) -/
+def parseFault2? (s : String) : Option FaultSpec :=
+  match s.splitOn ":" with
+  | ["exist", k] => k.toNat?.map fun k => { ofaults := fun i => if i < k then some .exist else none }
+  | ["open", e] => some { e := e, ofaults := fun i => if i = 0 then some .other else none }
+  | _ => (parseFault? s).map fun fe => { fault := fe.1, e := fe.2 }
+
+/-- callback mode, optionally followed by `+u:<ERR>`: the unlink of the cleanup path fails -/
+def parseCb2? (s : String) : Option (CbMode × Bool × String) :=
+  match s.splitOn "+u:" with
+  | [c] => (parseCb? c).map fun m => (m, false, "")
+  | [c, eu] => (parseCb? c).map fun m => (m, true, eu)
+  | _ => none
+
+def showRes2 (r : Res2) (e : String) : String :=
+  match r with
+  | .res r => showRes r e
+  | .invalid => "invalid"
+  | .sep => "sep"
+  | .exist => "exist"
+  | .openErr => "errno:" ++ e
+
+def showActP (pn : Path → String) (e : String) : Act → String
+  | .createExcl p m => s!"create {pn p} {toOct m}"
+  | .write p c => s!"write {pn p} {c.length}"
+  | .writeFail p n => s!"write {pn p} {n}!{e}"
+  | .close p => s!"close {pn p}"
+  | .closeFail p => s!"close {pn p}!{e}"
+  | .rename a b => s!"rename {pn a} {pn b}"
+  | .renameFail a b => s!"rename {pn a} {pn b}!{e}"
+  | .unlink p => s!"unlink {pn p}"
+
+def isExistFail : Act2 → Bool
+  | .openFail _ _ true => true
+  | _ => false
+
+/-- canonical text of a sequence: a run of EEXIST failures is written once with its length (every attempt has another
+    random name) -/
+def showSeq2 (dq : Path) (e eu : String) (acts : List Act2) : String :=
+  let pn : Path → String := fun p => if p = dq then "dst" else "tmp"
+  let k := (acts.takeWhile isExistFail).length
+  let rest := acts.dropWhile isExistFail
+  let head := match acts.head? with
+    | some (.openFail _ m true) => [s!"create tmp* {toOct m}!EEXIST x{k}"]
+    | _ => []
+  let body := rest.map fun a => match a with
+    | .base a => showActP pn e a
+    | .openFail p m _ => s!"create {pn p} {toOct m}!{e}"
+    | .unlinkFail p => s!"unlink {pn p}!{eu}"
+  if acts.isEmpty then "-" else ";".intercalate (head ++ body)
+
+def actKind2 : Act2 → String
+  | .base a => actKind a
+  | .openFail _ _ _ => "open"
+  | .unlinkFail _ => "unlink"
+
+def killIndex2 (acts : List Act2) (kind : String) (j : Nat) : Nat :=
+  let rec go : List Act2 → Nat → Nat → Nat
+    | [], i, _ => i
+    | a :: as, i, seen =>
+      if actKind2 a = kind then (if seen + 1 = j then i else go as (i + 1) (seen + 1)) else go as (i + 1) seen
+  go acts 0 0
+
+/-- the path the run created exclusively (the temporary file), if any -/
+def tmpOf (acts : List Act2) : Option Path :=
+  acts.findSome? fun a => match a with
+    | .base (.createExcl p _) => some p
+    | _ => none
+
+def showTmp (fs : FS) (acts : List Act2) : String :=
+  match tmpOf acts with
+  | some p => showState (fs p)
+  | none => "absent"
+
+def fsQ (dq : Path) (old : Option FileData) : FS := fun p => if p = dq then old else none
+
+def readerOk2 (umask : Nat) (dq : Path) (fs0 : FS) (new : FileData) (acts : List Act2) : Bool :=
+  let old := fs0 dq
+  let ok (fs : FS) : Bool := fs dq = old ∨ fs dq = some new
+  let rec go : FS → List Act2 → Bool
+    | _, [] => true
+    | fs, a :: as =>
+      let fs' := applyAct2 umask fs a
+      (match a with
+        | .base b => if (targets b).contains dq then ok fs' else true
+        | _ => true) && go fs' as
+  ok fs0 && go fs0 acts
+
+def scenario2 (N : Nat) (kind : String) (filename : Str) (mode : Nat) (pieces : List Bytes) (cb : CbMode) (sp : FaultSpec)
+    (rands : Nat → Nat) (unlinkFails : Bool) (fs : FS) : Option (Res2 × List Act2) :=
+  match kind with
+  | "wf" => some (writeFileFull codeStr tmpdirS filename N mode pieces cb sp.fault rands sp.ofaults unlinkFails fs)
+  | "commit" => some (fileRunFull codeStr tmpdirS filename mode pieces true sp.fault rands sp.ofaults unlinkFails fs)
+  | "abort" => some (fileRunFull codeStr tmpdirS filename mode pieces false sp.fault rands sp.ofaults unlinkFails fs)
+  | _ => none
+
+/-! ### destination names (`dest`): a small directory tree with look-alikes of temporary names -/
+
+def str (s : String) : Str := s.toList
+def hexStr? (s : String) : Option Str := (hexBytes? s).map fun l => l.map Char.ofNat
+def strHex (s : Str) : String := bytesHex (s.map Char.toNat)
+
+def lookalikes : List (String × FileData) :=
+  [("/r/a/b/safe1.db", ⟨genBytes 0 10 7, 0o600⟩), ("/r/a/b/safe123", ⟨genBytes 0 20 7, 0o644⟩),
+   ("/r/a/b/safe", ⟨genBytes 0 5 7, 0o644⟩), ("/r/a/b/x.txt", ⟨genBytes 0 30 7, 0o640⟩),
+   ("/r/a/safe7", ⟨genBytes 0 7 7, 0o644⟩)]
+
+def treeDirs : List String := ["/", "/r", "/r/a", "/r/a/b", "/r/a/b/sub"]
+
+def treeFS : FS := fun p =>
+  match (lookalikes.find? fun x => codeStr (str x.1) = p) with
+  | some x => some x.2
+  | none => if treeDirs.any (fun d => codeStr (str d) = p) then some ⟨[], dirFlag⟩ else none
+
+def isDirEntry (fs : FS) (p : Str) : Bool :=
+  match fs (codeStr p) with
+  | some d => decide (d.mode ≥ dirFlag ∧ d.mode < linkFlag)
+  | none => false
+
+/-- why an `openat` in directory `d` fails, if it does: a missing directory (ENOENT) or a file where a directory is
+    needed (ENOTDIR) — looked up at the nearest existing ancestor -/
+def openErrOf (fs : FS) (d : Str) : Option String :=
+  if isDirEntry fs d then none else
+  let rec up : Nat → Str → String
+    | 0, _ => "ENOENT"
+    | n + 1, x =>
+      match fs (codeStr x) with
+      | some _ => if isDirEntry fs x then "ENOENT" else "ENOTDIR"
+      | none => up n (dirOf x)
+  some (up 64 d)
+
 structure St where
   N : Nat := 65536
   umask : Nat := 0
@@ -174,39 +318,90 @@ def apiObs (st : St) (r : String) : String := s!"{r} dst={showState (st.fs dstP)
 def step (st : St) (line : String) : St × String :=
   match words line with
   | ["wf", old, um, mode, pcs, fault, cbm] =>
-    match parseOld? old, parseOct? um, parseOct? mode, parsePieces? pcs, parseFault? fault, parseCb? cbm with
-    | some old, some um, some mode, some sizes, some (f, e), some cb =>
+    match parseOld? old, parseOct? um, parseOct? mode, parsePieces? pcs, parseFault2? fault, parseCb2? cbm with
+    | some old, some um, some mode, some sizes, some sp, some (cb, uf, _) =>
       let pieces := mkPieces sizes
-      let r := writeFile tmpP dstP st.N mode pieces cb f
-      let fs := run um (fs0 old) r.2
-      let extra := if (fs tmpP).isSome then 1 else 0
-      let upto := match f with
+      let fs0 := fsQ dstQ old
+      let r := writeFileFull codeStr tmpdirS dstS st.N mode pieces cb sp.fault (fun i => i) sp.ofaults uf fs0
+      let fs := run2 um fs0 r.2
+      let extra := match tmpOf r.2 with
+        | some p => if (fs p).isSome then 1 else 0
+        | none => 0
+      let upto := match sp.fault with
         | .callback j => j
         | .panic j => j
         | _ => pieces.length
-      (st, s!"res={showRes r.1 e} dst={showState (fs dstP)} extra={extra} mid={midPoints st.N pieces upto f.writeAt} reader={if readerOk um old (newFile mode um pieces) r.2 then "ok" else "BAD"}")
+      (st, s!"res={showRes2 r.1 sp.e} dst={showState (fs dstQ)} extra={extra} mid={midPoints st.N pieces upto sp.fault.writeAt} reader={if readerOk2 um dstQ fs0 (newFile mode um pieces) r.2 then "ok" else "BAD"}")
     | _, _, _, _, _, _ => (st, "bad-op")
   | ["trace", old, um, mode, kind, pcs, fault, cbm] =>
-    match parseOld? old, parseOct? um, parseOct? mode, parsePieces? pcs, parseFault? fault, parseCb? cbm with
-    | some old, some um, some mode, some sizes, some (f, e), some cb =>
+    match parseOld? old, parseOct? um, parseOct? mode, parsePieces? pcs, parseFault2? fault, parseCb2? cbm with
+    | some old, some um, some mode, some sizes, some sp, some (cb, uf, eu) =>
       let pieces := mkPieces sizes
-      match scenario st.N kind mode pieces cb f with
+      let fs0 := fsQ dstQ old
+      match scenario2 st.N kind dstS mode pieces cb sp (fun i => i) uf fs0 with
       | some r =>
-        let fs := run um (fs0 old) r.2
-        (st, s!"seq={showSeq e r.2} res={showRes r.1 e} dst={showState (fs dstP)} tmp={showState (fs tmpP)} reader={if readerOk um old (newFile mode um pieces) r.2 then "ok" else "BAD"}")
+        let fs := run2 um fs0 r.2
+        (st, s!"seq={showSeq2 dstQ sp.e eu r.2} res={showRes2 r.1 (if uf ∧ sp.e = "" then eu else sp.e)} dst={showState (fs dstQ)} tmp={showTmp fs r.2} reader={if readerOk2 um dstQ fs0 (newFile mode um pieces) r.2 then "ok" else "BAD"}")
       | none => (st, "bad-op")
     | _, _, _, _, _, _ => (st, "bad-op")
   | ["kill", old, um, mode, kind, pcs, fault, cbm, name, j] =>
-    match parseOld? old, parseOct? um, parseOct? mode, parsePieces? pcs, parseFault? fault, parseCb? cbm, j.toNat? with
-    | some old, some um, some mode, some sizes, some (f, e), some cb, some j =>
+    match parseOld? old, parseOct? um, parseOct? mode, parsePieces? pcs, parseFault2? fault, parseCb2? cbm, j.toNat? with
+    | some old, some um, some mode, some sizes, some sp, some (cb, uf, eu), some j =>
       let pieces := mkPieces sizes
-      match scenario st.N kind mode pieces cb f with
+      let fs0 := fsQ dstQ old
+      match scenario2 st.N kind dstS mode pieces cb sp (fun i => i) uf fs0 with
       | some r =>
-        let acts := r.2.take (killIndex r.2 name j)
-        let fs := run um (fs0 old) acts
-        (st, s!"seq={showSeq e acts} dst={showState (fs dstP)} tmp={showState (fs tmpP)} reader={if readerOk um old (newFile mode um pieces) acts then "ok" else "BAD"}")
+        let acts := r.2.take (killIndex2 r.2 name j)
+        let fs := run2 um fs0 acts
+        (st, s!"seq={showSeq2 dstQ sp.e eu acts} dst={showState (fs dstQ)} tmp={showTmp fs acts} reader={if readerOk2 um dstQ fs0 (newFile mode um pieces) acts then "ok" else "BAD"}")
       | none => (st, "bad-op")
     | _, _, _, _, _, _, _ => (st, "bad-op")
+  | ["clean", h] =>
+    match hexStr? h with
+    | some p => (st, strHex (clean p))
+    | none => (st, "bad-op")
+  | ["dirof", h] =>
+    match hexStr? h with
+    | some p => (st, strHex (dirOf p))
+    | none => (st, "bad-op")
+  | ["tempname", td, d, pat, ex] =>
+    match hexStr? td, hexStr? d, hexStr? pat with
+    | some td, some d, some pat =>
+      if hasSep pat then (st, "err=sep")
+      else if ex = "0" then (st, "err=errno:ENOENT")
+      else (st, s!"pre={strHex (tempPrefix td d pat)} suf={strHex (splitStar pat).2}")
+    | _, _, _ => (st, "bad-op")
+  | ["dest", rel, pcs, fault, cbm] =>
+    match hexStr? rel, parsePieces? pcs, parseFault2? fault, parseCb2? cbm with
+    | some rel, some sizes, some sp, some (cb, _, _) =>
+      let pieces := mkPieces sizes
+      let filename := str "/r/a/b/" ++ rel
+      match validName filename with
+      | none => (st, "res=invalid dst=- look=- new=0")
+      | some c =>
+        let tname := tempName tmpdirS (dirOf c) safePattern 1000
+        -- environment: what the kernel answers for this directory tree
+        let oerr : Option String :=
+          match openErrOf treeFS (dirOf c) with
+          | some e => some e
+          | none => if tname.length ≥ 4096 then some "ENAMETOOLONG" else none
+        let rerr : Option String :=
+          if isDirEntry treeFS c then some "DIR"
+          else if (baseOf c).length > 255 then some "ENAMETOOLONG" else none
+        let fault := if sp.fault = .none ∧ rerr.isSome then Fault.rename else sp.fault
+        let e := match oerr, rerr with
+          | some e, _ => e
+          | none, some e => if sp.fault = .none then e else sp.e
+          | none, none => sp.e
+        let of : Nat → Option OpenFault := fun i => if oerr.isSome ∧ i = 0 then some .other else none
+        let r := writeFileFull codeStr tmpdirS filename st.N 0o644 pieces cb fault (fun i => 1000 + i) of false treeFS
+        let fs := run2 0o22 treeFS r.2
+        let look := ",".intercalate (lookalikes.map fun x => showState (fs (codeStr (str x.1))))
+        let new := match tmpOf r.2 with
+          | some p => if (fs p).isSome ∧ p ≠ codeStr c then 1 else 0
+          | none => 0
+        (st, s!"res={showRes2 r.1 e} dst={showState (fs (codeStr c))} look={look} new={new}")
+    | _, _, _, _ => (st, "bad-op")
   | ["reset", old, um] =>
     match parseOld? old, parseOct? um with
     | some old, some um => ({ st with umask := um, fs := fs0 old, file := none, off := 0, live := true }, "reset")
